@@ -42,7 +42,11 @@ func setup(src source.Source) {
 	if level == "" {
 		level = "error"
 	}
-	args := config.Args{ConfigFile: "none", Logger: logger, LogLevel: level, LogDir: os.TempDir(),
+	logDir := os.Getenv("DVERIF_LOGDIR")
+	if logDir == "" {
+		logDir = os.TempDir()
+	}
+	args := config.Args{ConfigFile: "none", Logger: logger, LogLevel: level, LogDir: logDir,
 		NoColor: true, ConnectionsPerCPU: 10, SSHPort: 2222}
 	if cfg := os.Getenv("DVERIF_CFG"); cfg != "" {
 		args.ConfigFile = cfg
